@@ -486,6 +486,12 @@ def main():
         translate_more.install(GENERATORS, sys.modules[__name__])
     except ImportError:
         pass
+    # additive: every tools/translate_more_<pkg>.py exposing install(GENERATORS, T) is loaded too
+    import glob
+    import importlib
+    sys.path.insert(0, os.path.dirname(os.path.abspath(__file__)))
+    for path in sorted(glob.glob(os.path.join(os.path.dirname(os.path.abspath(__file__)), 'translate_more_*.py'))):
+        importlib.import_module(os.path.basename(path)[:-3]).install(GENERATORS, sys.modules[__name__])
     rc = 0
     for fname, gen in GENERATORS.items():
         if args.only and fname != args.only:
